@@ -85,3 +85,6 @@ spec fn contains(i: Interval, x: int) -> bool {
 spec fn tvb(b: bool) -> int { if b { 4 } else { 1 } }
 /// both values lie in their intervals
 spec fn pair_in(x: Interval, y: Interval, a: int, b: int) -> bool { contains(x, a) && contains(y, b) }
+/// the pair (a, b) satisfies the constraint `a > b` (strict) / `a >= b`
+spec fn sat_gt(a: int, b: int, strict: bool) -> bool { if strict { a > b } else { a >= b } }
+spec fn in_i64(x: int) -> bool { i64::MIN <= x <= i64::MAX }
